@@ -13,7 +13,7 @@ from types import SimpleNamespace
 from .. import cpuwatch, e2e, realcall
 from ..common import Hang, hx, unhx, watchdog
 from ..runner import Check
-from . import c11_collapse, c11_dups, c11_repoint
+from . import c11_collapse, c11_dups, c11_repoint, c11_reusepos
 
 # ---------------------------------------------------------------------------------------------
 # graphs
@@ -1652,6 +1652,7 @@ def run(ck: Check) -> None:
     guarded(ck, campaign_sort_models, 600 if quick else 6000)
     guarded(ck, campaign_e2e, 240 if quick else 2000)
     guarded(ck, campaign_reuse, 200 if quick else 2000)
+    guarded(ck, c11_reusepos.campaign_reusepos, 40 if quick else 1200)
     guarded(ck, c11_repoint.campaign_replace_reference, 400 if quick else 4000)
     guarded(ck, c11_repoint.campaign_passes, 150 if quick else 1500)
     guarded(ck, c11_collapse.campaign_collapse, 120 if quick else 1500)
@@ -1659,6 +1660,7 @@ def run(ck: Check) -> None:
     guarded(ck, campaign_e2e_deep, 10 if quick else 60)
     guarded(ck, campaign_e2e_modular, 80 if quick else 400)
     ck.search_hooks.append(search_update_action)
+    ck.search_hooks.append(c11_reusepos.search_reusepos)
     ck.search_hooks.append(c11_collapse.search_collapse)
     ck.search_hooks.append(c11_dups.search_dups)
     ck.search_hooks.append(search_e2e)
